@@ -354,7 +354,8 @@ fn cmd_check_inner(m: &HashMap<String, String>) -> i32 {
         ("runs_clean_class", J::i((st.runs - st.runs_faulty) as i64)),
         ("runs_faulty_class", J::i(st.runs_faulty as i64)),
         ("runs_with_wide_element", J::i(st.runs_wide as i64)),
-        ("element_shapes", J::s("Tok: 8 bytes, align 4 (5/6 of vector runs, all matrix runs); Wide16: 16 bytes, align 16, padding in front of the payload (1/6 of vector runs)")),
+        ("runs_with_nodrop_element", J::i(st.runs_plain as i64)),
+        ("element_shapes", J::s("Tok: 8 bytes, align 4, drop glue (5/8 of vector runs, all matrix runs); Wide16: 16 bytes, align 16, padding in front of the payload, drop glue (2/8); PlainNoDrop: 8 bytes, no drop glue, so mem::needs_drop::<T>() is false (1/8; order, length, aliasing and read-after-yield are checked, drop accounting is not observable)")),
         ("simulated_steps_executed", J::i(st.ops_exec as i64)),
         ("simulated_steps_skipped_precondition", J::i(st.ops_skipped as i64)),
         ("simulated_time_note", J::s("vek has no clock; simulated time is the number of simulator steps (operations executed)")),
